@@ -175,6 +175,27 @@ def grid_cases(ck):
                                 head + [{"roles": {role: {"features": {f: b}}}}]))
             out.append((cls, "roles", f"roles.{role}.features", f"roles/{role}: all features True",
                         head + [{"roles": {role: {"features": {f: True for f in feats}}}}]))
+    # several roles in every announced order, each role plain `{}` / `{"features": {}}` / with its own feature set:
+    # whatever parse() keeps per role must come from that role's entry alone
+    import itertools
+    rs = ck.rng("role-orders")
+    for cls, table, head in (("Hello", W.HELLO_ROLES, [1, "realm1"]), ("Welcome", W.WELCOME_ROLES, [2, 7])):
+        names = list(table)
+        orders = [list(p_) for k in range(2, len(names) + 1) for p_ in itertools.permutations(names, k)]
+        if quick and len(orders) > 14:
+            orders = [o for o in orders if len(o) == 2] + rs.sample([o for o in orders if len(o) > 2], 6)
+        for o in orders:
+            states = list(itertools.product(range(3), repeat=len(o)))
+            if len(o) > 2:
+                states = rs.sample(states, 4 if quick else 12)
+            for st in states:
+                roles = {}
+                for r, k in zip(o, st):
+                    ph = (names.index(r) + sum(st)) % 3
+                    fs = {f: (True, False, None)[(j + ph) % 3] for j, f in enumerate(table[r])}
+                    roles[r] = {} if k == 0 else {"features": {}} if k == 1 else {"features": fs}
+                out.append((cls, "roles", "roles", "roles " + " > ".join(f"{r}:{'-e+'[k]}" for r, k in zip(o, st)),
+                            head + [{"roles": roles}]))
     # the quirks found while reading (always present, named)
     extra = [
         ("Register", "full", "force_reregister", "force_reregister := 1.0", [64, 1, {"force_reregister": 1.0}, "a.b"]),
@@ -268,6 +289,11 @@ def judge_parse(ck, cls, where, desc, w, out, origin):
         ck.violation(f"{cls}.parse/{what}/accepts-{kind}",
                      f"{cls}.parse accepts a message whose '{what}' is not a valid {kind}: {desc}",
                      {"cls": cls, "w": W.enc(w), "via": origin, "outcome": "Ok", "desc": desc}, found_input=True)
+    # the object reflects the input, field by field and -- for repeated sub-structures -- entry by entry
+    for attr, exp, got in W.reflect_violations(cls, w, {n: W.dec(v) for n, v in out["attrs"]}):
+        ck.violation(f"{cls}.parse/{attr}/not-reflected",
+                     f"{cls}.parse: attribute '{attr}' of the accepted message is {W.vrepr(got)}, the input says {W.vrepr(exp)} ({desc})",
+                     {"cls": cls, "w": W.enc(w), "via": origin, "attr": attr, "desc": desc}, found_input=True)
     # re-marshal equivalence: parse(marshal(obj)) must reproduce obj (absent == default)
     if "re_exc" in out:
         ck.violation(f"{cls}.marshal/{where}/reparse-{out['re_exc']}",
